@@ -5,8 +5,8 @@ from vlib import Case, hx
 
 HARNESS = "sim_driver"
 LEAN_MODULES = ["ViaProofs.C09"]
-LEMMA_MODULES = ['ViaProofs.ConnLemmas']
-REQUIRED_THEOREMS = ['Via.C09_close_deferred', 'Via.C09_no_shutdown_while_writing', 'Via.C09_close_on_completion', 'Via.C09_keepalive_stays_open', 'Via.C09_keepalive_completion', 'Via.C09_keepalive_iff']
+LEMMA_MODULES = ['ViaProofs.ConnLemmas', 'ViaProofs.ConnWrites']
+REQUIRED_THEOREMS = ['Via.C09_close_deferred', 'Via.C09_no_shutdown_while_writing', 'Via.C09_close_on_completion', 'Via.C09_keepalive_stays_open', 'Via.C09_keepalive_completion', 'Via.C09_keepalive_iff', 'Via.C09_no_truncation', 'Via.C09_disconnect_shuts_down_idle_only']
 LEVEL = "proof"
 TRUSTED_BASE = S.SIM_TRUSTED
 ASSUMPTIONS = S.SIM_ASSUMPTIONS
@@ -14,7 +14,7 @@ compare = S.compare
 
 PROP = "C09"
 
-RULE = ("request sequences mixing HTTP/1.0, 1.1, Connection: close/keep-alive (any case, in lists), invalid requests with auto-disconnect "
+RULE = ("request sequences mixing HTTP/1.0, 1.1, Connection: close/keep-alive (any case, in lists with and without blanks around the comma, split over two field lines), invalid requests with auto-disconnect "
         "on/off x write schedules (completion immediately, later, after further reads) x tcp / ssl; oracle: no shutdown while a "
         "write started for that connection is unresolved (unless the peer failed), and after the final response of a request has "
         "been written the connection is shut down iff the request was not keep-alive; non-trivial = a non keep-alive request occurs")
